@@ -20,6 +20,8 @@ TRUSTED = ['T1 pyvc model of Python (DESIGN 3)', 'T11 shutil.copy creates the de
            'a JSON document does not parse', 'T16 z3 / cvc5']
 ASSUMPTIONS = ['a kill inside shutil.copy of datapackage.json leaves a prefix of a JSON document, which is unparseable',
                'consumers drain resource streams in order (rely P-seq, discharged for the driver under C05)']
+from contracts.common import lazy_sym, lazy_nat   # noqa: E402
+
 ITEMS = [
     Item('DumperBase.process_resources', DM.sym_process_resources, [('crashpoints', N.nat_dump_crashpoints)],
          DM.D + 'dumper_base.py::DumperBase.process_resources'),
@@ -29,4 +31,7 @@ ITEMS = [
     Item('PathDumper.write_file_to_output', DM.sym_write_file_to_output, [], DM.D + 'to_path.py::PathDumper.write_file_to_output'),
     Item('PathDumper.write_file_to_output.faulty', DM.sym_write_file_to_output_faulty, [], DM.D + 'to_path.py::PathDumper.write_file_to_output'),
     Item('recorded-findings', None, [('bounded', KF.nat_findings_c19)], 'dataflows/processors/dumpers/dumper_base.py::DumperBase.process_resources'),
+    # a step that removes a resource behind an observer reads its rows to the end: the observer upstream (a checkpoint being written, a
+    # dump) only completes that resource -- and a sequential reader only reaches the next one -- when its consumer exhausts it
+    Item('delete_resource.drains', lazy_sym('C10', 'sym_delete_resource'), [], 'dataflows/processors/delete_resource.py::delete_resource.func'),
 ]
